@@ -41,7 +41,8 @@ Definition miter_self (SC : Circuit) : res Circuit :=
   lift (add_subcircuit M0 SC "c0" []) (λ M1,
   lift (add_subcircuit M1 SC "c1" []) (λ M2,
   lift (add_each (λ g n, add_g g n Input [] [pre "c0" n; pre "c1" n] af_default) (c_g M2) S) (λ g3,
-  let '(g4, o, _) := add_g g3 "sat" (if (1 <? length E) then Or else Buf) [] [] af_out1 in
+  (* no endpoint: constant 0 (repair aeab334); one: buf; more: or *)
+  let '(g4, o, _) := add_g g3 "sat" (match E with [] => C0 | [_] => Buf | _ => Or end) [] [] af_out1 in
   lift (g4, o) (λ g4,
   lift (add_each (λ g n, add_g g (pre "dif" n) Xor [pre "c0" n; pre "c1" n] ["sat"] af_default) g4 E) (λ g5,
   Ok (with_g M2 g5)))))).
@@ -161,11 +162,11 @@ Definition sensitize (solve : circuit → list (string * bool) → option val) (
 
 (* ------------------------------------------------------------------------------------------------ *)
 (* (S) the definitions                                                                              *)
-Definition flip (ρ : val) (s : string) : val := λ x, if bool_decide (x = s) then negb (ρ s) else ρ x.
+Definition flipv (ρ : val) (s : string) : val := λ x, if bool_decide (x = s) then negb (ρ s) else ρ x.
 Definition setv (ρ : val) (n : string) (b : bool) : val := λ x, if bool_decide (x = n) then b else ρ x.
 (* flipping startpoint s flips n (c acyclic: evalc is the unique consistent extension of ρ) *)
-Definition flips (c : circuit) (n s : string) (ρ : val) : Prop := evalc c ρ n ≠ evalc c (flip ρ s) n.
-Definition flipsb (c : circuit) (n s : string) (ρ : val) : bool := xorb (evalc c ρ n) (evalc c (flip ρ s) n).
+Definition flips (c : circuit) (n s : string) (ρ : val) : Prop := evalc c ρ n ≠ evalc c (flipv ρ s) n.
+Definition flipsb (c : circuit) (n s : string) (ρ : val) : bool := xorb (evalc c ρ n) (evalc c (flipv ρ s) n).
 (* number of startpoints (of a duplicate-free list) whose flip flips n under ρ *)
 Definition count (c : circuit) (n : string) (sp : list string) (ρ : val) : nat := length (filter (λ s, flipsb c n s ρ = true) sp).
 Definition max_list (l : list nat) : nat := foldr max 0 l.
